@@ -311,6 +311,16 @@ func (sm *seatManager) rotatePositions() error {
 
 		activeCount := sm.getActivePlayerCount()
 		if activeCount < 2 {
+			// fewer than two players would be dealt in: nobody is left to wait behind, so seated-in
+			// players with chips stop waiting for the big blind (otherwise the table can never rotate again)
+			for seatID, sp := range sm.Seats() {
+				if sp != nil && sp.IsIn && sp.HasChips {
+					sm.SeatData[seatID].IsBetweenDealerBB = false
+				}
+			}
+			activeCount = sm.getActivePlayerCount()
+		}
+		if activeCount < 2 {
 			sm.printState(1, func(tag int) {
 				fmt.Printf("[DEBUG#seatManager#rotatePositions#%d] activeCount: %d. Error: %+v\n", tag, activeCount, ErrUnableToRotatePositions)
 			})
